@@ -112,6 +112,15 @@ class CNode(object):
         return self.tu.line_of(self.begin) if self.begin >= 0 else None
 
     @property
+    def src_begin(self):
+        """offset of the node in the source text (differs from `begin` only for nodes of a normalised function)"""
+        return getattr(self, "_sb", self.begin) if type(self) is not CNode else self.begin
+
+    @property
+    def src_end(self):
+        return getattr(self, "_se", self.end) if type(self) is not CNode else self.end
+
+    @property
     def src(self):
         if self.begin < 0 or self.end < 0:
             return ""
@@ -193,6 +202,8 @@ class CNode(object):
             return None if b is None else "%s[%s]" % (b, idx)
         if k == "UnaryOperator" and n.opcode in ("*", "&"):
             b = n.children[0].path()
+            if b is not None and n.opcode == "*" and b.startswith("&"):
+                return b[1:]        # *&x is x (arises when a pointer parameter is substituted by an address-of argument)
             return None if b is None else n.opcode + b
         return None
 
@@ -461,6 +472,9 @@ def parse_all(relpath, repo=None, ext=False):
     for f in m.functions.values():
         for n in f.walk():
             n.tu = m
+    if os.environ.get("VP_NO_CINLINE") != "1":
+        from . import cinline
+        cinline.normalise(m)
     _ALL[key] = m
     return m
 
